@@ -298,6 +298,24 @@ def nodesOf (ti : TypeInfo) (p : Program) (big : Nat) : Nat → Callable → Env
         retained := if d.isPipe then pipeRetained d ins (callOutputs ti p big d ins fq) else [] }
       :: (if d.isPipe then d.calls.flatMap (nodesOf ti p big fuel d ins fq) else [])
 
+/-- the nodes of the calls that `keep` retains (`keep pipeline callId`), resolved in
+the FULL program: what the graph of the remaining calls must look like after
+some calls were deleted -/
+def nodesOfKeep (keep : Callable → String → Bool) (ti : TypeInfo) (p : Program) (big : Nat) :
+    Nat → Callable → Env → List String → Call → List Node
+  | 0, _, _, _, _ => []
+  | fuel + 1, pipe, self, pre, k =>
+    match p.find? k.decId with
+    | none => []
+    | some d =>
+      let ins := callIns ti pipe self (callOutputs ti p big pipe self pre) d k
+      let fq := pre ++ [k.id]
+      { fqid := fq, callable := d.name, isPipe := d.isPipe, inputs := ins,
+        outputs := callOutputs ti p (big + 1) pipe self pre k.id,
+        retained := if d.isPipe then pipeRetained d ins (callOutputs ti p big d ins fq) else [] }
+      :: (if d.isPipe then (d.calls.filter (fun k' => keep d k'.id)).flatMap
+            (nodesOfKeep keep ti p big fuel d ins fq) else [])
+
 def graphFuel (p : Program) : Nat :=
   (p.callables.map fun c => c.calls.length + 1).sum + 2
 
@@ -312,6 +330,12 @@ def deepGraph (ti : TypeInfo) (p : Program) : List Node :=
   match p.top with
   | none => []
   | some t => nodesOf ti p (graphFuel p) (graphFuel p) (topPipe t) [] [] t
+
+/-- the resolved call graph restricted to the calls that `keep` retains -/
+def deepGraphKeep (keep : Callable → String → Bool) (ti : TypeInfo) (p : Program) : List Node :=
+  match p.top with
+  | none => []
+  | some t => nodesOfKeep keep ti p (graphFuel p) (graphFuel p) (topPipe t) [] [] t
 
 /-! ## the edits on the type table -/
 
@@ -567,5 +591,124 @@ def RemInsOK : List (String × String) → Program → Bool
 
 def TypeInfo.removeInputs (pairs : List (String × String)) (ti : TypeInfo) : TypeInfo :=
   pairs.foldl (fun ti xq => ti.removeInput xq.1 xq.2) ti
+
+end Martian.Refactor
+
+namespace Martian.Refactor
+
+/-! ### explicit unfolding budgets, deleting calls, removing outputs -/
+
+def deepGraphAt (big fuel : Nat) (ti : TypeInfo) (p : Program) : List Node :=
+  match p.top with
+  | none => []
+  | some t => nodesOf ti p big fuel (topPipe t) [] [] t
+
+def deepGraphKeepAt (keep : Callable → String → Bool) (big fuel : Nat) (ti : TypeInfo) (p : Program) : List Node :=
+  match p.top with
+  | none => []
+  | some t => nodesOfKeep keep ti p big fuel (topPipe t) [] [] t
+
+/-- the calls that `applyCallRemovals rem` leaves in `pipe` -/
+def keepOf (rem : List CallRemoval) (pipe : Callable) (id : String) : Bool :=
+  match rem.find? (fun r => r.pipe == pipe.name) with
+  | some r => !(pipe.isPipe && r.ids.contains id)
+  | none => true
+
+def pipeOKDel (rem : List CallRemoval) (c : Callable) : Bool :=
+  (c.isPipe || c.calls.isEmpty)
+  && decide (callIds c).Nodup
+  && c.calls.all (fun k => noStar k.binds)
+  && noStar c.ret
+  && (graphRefs c).all (fun r => r.kind != RefKind.call || keepOf rem c r.id)
+
+/-- **hypothesis of `remove_calls_graph`** (decidable): the deleted calls are
+referenced by nothing that remains in their pipeline (what `unusedCalls`
+establishes: `remove_unused_preserves_partial`); no wildcard bindings (KF1);
+distinct call ids. -/
+def CallRemOK (rem : List CallRemoval) (p : Program) : Bool :=
+  rem.all (fun r => r.pipe != "")
+  && p.callables.all (pipeOKDel rem)
+  && (match p.top with | some t => pipeOKDel rem (topPipe t) | none => true)
+
+end Martian.Refactor
+
+namespace Martian.Refactor
+
+/-! ### removing an output that nothing refers to -/
+
+/-- the parameter itself (pipeline: with its return binding; stage: with its
+retain entry): the first action of `removeOutputPlain` -/
+def outStep (x o : String) (p : Program) : Program :=
+  match p.find? x with
+  | none => p
+  | some xc => applyOutAction p (if xc.isPipe then OutAction.pipeOut x o else OutAction.stageOut x o)
+
+def dropKeyR (o : String) : RExp → RExp
+  | .cons k h t => if k = o then t else .cons k h (dropKeyR o t)
+  | .lit s => .lit s
+  | .sref fq c p => .sref fq c p
+  | .split e => .split e
+  | .arr es => .arr es
+  | .map st es => .map st es
+  | .nil => .nil
+
+def dropTopKey (o : String) : RExp → RExp
+  | .map true es => .map true (dropKeyR o es)
+  | e => e
+
+/-- the node of a call of pipeline `x` after its output `o` was removed -/
+def remNodeOut (x o : String) (n : Node) : Node :=
+  if n.callable = x ∧ n.isPipe = true then { n with outputs := dropTopKey o n.outputs } else n
+
+def pipeOKRo (x o : String) (p : Program) (c : Callable) : Bool :=
+  (c.isPipe || c.calls.isEmpty)
+  && decide (callIds c).Nodup
+  && c.calls.all (fun k => noStar k.binds)
+  && noStar c.ret
+  && c.calls.all (fun k => (p.find? k.decId).isSome)
+  && (graphRefs c).all (fun r => r.kind != RefKind.call || (callIds c).contains r.id)
+  && (c.name != x || decide (c.ret.map (·.name)).Nodup)
+  && (graphRefs c).all (fun r => !callRefTo (callIdsOf x c) r
+        || (match r.path with | h :: _ => h != o | [] => false))
+
+/-- **hypothesis of `remove_output_graph`** (decidable): output `o` of `x` is
+projected from no call of `x` and no call of `x` is bound as a whole; `x` is not
+used as a type (KF2); `o` is not the callable's last output; no wildcard
+bindings (KF1); call ids distinct; references name existing calls. -/
+def RemOutOK (x o : String) (ti : TypeInfo) (p : Program) : Bool :=
+  x != ""
+  && (match p.find? x with
+      | some xc => p.callables.all (fun c => c.name != x ||
+              (c.isPipe == xc.isPipe && c.outs == xc.outs && c.ret == xc.ret))
+          && (removeFirstOut o xc.outs).isEmpty == xc.outs.isEmpty
+          && (removeFirstBind o xc.ret).isEmpty == xc.ret.isEmpty
+      | none => false)
+  && p.callables.all (pipeOKRo x o p)
+  && (match p.top with | some t => pipeOKRo x o p (topPipe t) | none => true)
+  && typesAvoid x ti
+
+end Martian.Refactor
+
+namespace Martian.Refactor
+
+/-! ### the cascade of input removals: side conditions that do not mention the removed parameters -/
+
+def structOKc (c : Callable) : Bool :=
+  (c.isPipe || c.calls.isEmpty)
+  && decide (callIds c).Nodup
+  && c.calls.all (fun k => noStar k.binds && decide (k.binds.map (·.name)).Nodup)
+  && noStar c.ret
+
+/-- well-formedness of a program as the compiler guarantees it (decidable): callable
+names distinct and non-empty, stages without body, distinct call ids, distinct
+binding names, no wildcard bindings (KF1) -/
+def StructOK (p : Program) : Bool :=
+  decide (p.callables.map (·.name)).Nodup
+  && p.callables.all (fun c => c.name != "" && structOKc c)
+  && (match p.top with | some t => structOKc (topPipe t) | none => true)
+
+/-- nothing inside callable `x` refers to `self.q` -/
+def seedOK (x q : String) (p : Program) : Bool :=
+  x != "" && p.callables.all (fun c => c.name != x || (graphRefs c).all (fun r => !selfRefTo q r))
 
 end Martian.Refactor
